@@ -3,6 +3,7 @@ package swapsim
 import (
 	"bytes"
 	"fmt"
+	"strings"
 	"testing"
 
 	"pgregory.net/rapid"
@@ -23,6 +24,13 @@ func monitorC15(col *stats.Collector) func(h *Hist) {
 					key := "C15/second-opening-tx:same-process"
 					if first.Epoch != o.Epoch {
 						key = "C15/second-opening-tx:after-restart"
+						// root cause of the listed finding: the wallet had broadcast the first transaction but
+						// returned an error (lost reply), so the node never learnt about it
+						for _, ff := range n.FaultsFired {
+							if strings.HasPrefix(ff, fmt.Sprintf("wallet.CreateOpeningTransaction:%d@", sim.FaultAfter)) {
+								key = "C15/second-opening-tx:after-lost-wallet-reply"
+							}
+						}
 					}
 					h.stop = col.Violation(h.T, key, "%s broadcast two opening transactions for one swap: %s (epoch %d) and %s (epoch %d)\n%s", n.Name, first.TxID[:8], first.Epoch, o.TxID[:8], o.Epoch, h.dump())
 					return
@@ -63,7 +71,14 @@ func monitorC15(col *stats.Collector) func(h *Hist) {
 					}
 					if at, ok := cancelSentAt[s.SwapId.String()]; ok && pc.TraceIdx > at {
 						h.class("pay-attempt-after-cancel-sent")
-						h.stop = col.Violation(h.T, "C15/payment-after-cancel-sent:"+pc.Kind, "%s attempted a %s payment for swap %s after it had sent cancel for that swap to the peer\n%s", n.Name, pc.Kind, s.SwapId.String()[:6], h.dump())
+						// the state the paying process was recovered from (the last record an earlier process wrote)
+						from := "same-process"
+						for _, w := range n.Writes {
+							if w.SwapId == s.SwapId.String() && w.Epoch < pc.Epoch {
+								from = strings.TrimPrefix(w.State, "State_")
+							}
+						}
+						h.stop = col.Violation(h.T, "C15/payment-after-cancel-sent:"+pc.Kind+":"+from, "%s attempted a %s payment for swap %s after it had sent cancel for that swap to the peer\n%s", n.Name, pc.Kind, s.SwapId.String()[:6], h.dump())
 						return
 					}
 				}
